@@ -42,12 +42,23 @@ func genC17(r *h.Rng, tier string, idx int) *h.Plan {
 	}
 	vals := []string{"x", "y", "z"}
 	n := r.Range(20, 40)
+	churn := r.P(1, 3)
+	if churn {
+		p.Cfg["mode"] = "parentchurn"
+	}
 	for i := 0; i < n; i++ {
 		l := r.Pick(locs)
 		if r.P(1, 12) {
 			l = "ghost" // never created
 		}
-		switch r.Weighted([]int{8, 3, 5, 5, 3, 1, 2, 4, 1, 1, 4}) {
+		weights := []int{8, 3, 5, 5, 3, 1, 2, 4, 1, 1, 4, 1, 0, 0}
+		if churn {
+			// parent churn: the parent list is an ordinary property fact, so it
+			// changes through SetParents, Clear, a written "!parents" fact and the
+			// removal of that fact; inherited reads in between
+			weights = []int{6, 1, 2, 7, 2, 1, 1, 3, 5, 3, 3, 4, 2, 2}
+		}
+		switch r.Weighted(weights) {
 		case 0:
 			f := map[string]interface{}{"k": r.Pick(vals), "n": float64(i)}
 			if r.P(1, 5) {
@@ -90,6 +101,14 @@ func genC17(r *h.Rng, tier string, idx int) *h.Plan {
 		case 10:
 			d := []time.Duration{time.Millisecond / 2, 2 * time.Millisecond, 700 * time.Millisecond, 4 * time.Second}[r.Intn(4)]
 			p.Ops = append(p.Ops, h.Op{K: "sleep", N: int64(d)})
+		case 11:
+			p.Ops = append(p.Ops, h.Op{K: "getparents", Loc: l})
+		case 12:
+			// the parent list written as the property fact it is
+			i0 := r.Intn(len(locs) - 1)
+			p.Ops = append(p.Ops, h.Op{K: "addfact", Loc: locs[i0], J: map[string]interface{}{"!parents": []interface{}{locs[i0+1]}}})
+		case 13:
+			p.Ops = append(p.Ops, h.Op{K: "remfact", Loc: locs[r.Intn(len(locs)-1)], Id: "!.parents"})
 		}
 	}
 	return p
@@ -195,6 +214,12 @@ func doCore(e *h.CoreEngine, r hs.Req) (out string) {
 			return "ERR"
 		}
 		return "ok"
+	case "getparents":
+		ps, err := loc.GetParents(ctx)
+		if err != nil {
+			return "ERR"
+		}
+		return fmt.Sprint(ps)
 	}
 	return "ERR:unknown-op"
 }
